@@ -58,37 +58,96 @@ pub open spec fn rd(y: int, m: int, d: int) -> int {
     let mm = if m <= 2 { m + 12 } else { m };
     365 * yy + yy / 4 - yy / 100 + yy / 400 + (153 * (mm - 3) + 2) / 5 + d - 1 - 719468
 }
+#[verifier::spinoff_prover]
 pub proof fn lemma_rd_epoch()
     ensures rd(1970, 1, 1) == 0, rd(-9999, 1, 1) == -4371587, rd(9999, 12, 31) == 2932896,
 {}
+/// (153(mm-3)+2)/5 for the shifted month number mm = 3..14 (March..February)
+pub open spec fn moff(mm: int) -> int {
+    if mm == 3 { 0 } else if mm == 4 { 31 } else if mm == 5 { 61 } else if mm == 6 { 92 } else if mm == 7 { 122 } else if mm == 8 { 153 }
+    else if mm == 9 { 184 } else if mm == 10 { 214 } else if mm == 11 { 245 } else if mm == 12 { 275 } else if mm == 13 { 306 } else { 337 }
+}
+#[verifier::spinoff_prover]
+pub proof fn lemma_moff(mm: int)
+    requires 3 <= mm <= 14,
+    ensures (153 * (mm - 3) + 2) / 5 == moff(mm),
+{
+    if mm == 3 {} else if mm == 4 {} else if mm == 5 {} else if mm == 6 {} else if mm == 7 {} else if mm == 8 {}
+    else if mm == 9 {} else if mm == 10 {} else if mm == 11 {} else if mm == 12 {} else if mm == 13 {} else {}
+}
+/// stepping from y-1 to y changes floor(y/k) by one exactly when k divides y
+#[verifier::spinoff_prover]
+pub proof fn lemma_div_step(y: int, k: int)
+    requires k > 1,
+    ensures y / k - (y - 1) / k == (if y % k == 0 { 1int } else { 0int }),
+{
+    let q = y / k; let r = y % k;
+    vstd::arithmetic::div_mod::lemma_fundamental_div_mod(y, k);
+    vstd::arithmetic::div_mod::lemma_mod_bound(y, k);
+    assert(y == k * q + r && 0 <= r < k);
+    if r == 0 {
+        assert(y - 1 == (q - 1) * k + (k - 1)) by (nonlinear_arith) requires y == k * q + r, r == 0;
+        vstd::arithmetic::div_mod::lemma_fundamental_div_mod_converse(y - 1, k, q - 1, k - 1);
+    } else {
+        assert(y - 1 == q * k + (r - 1)) by (nonlinear_arith) requires y == k * q + r;
+        vstd::arithmetic::div_mod::lemma_fundamental_div_mod_converse(y - 1, k, q, r - 1);
+    }
+}
+#[verifier::spinoff_prover]
+pub proof fn lemma_divides_chain(y: int, a: int, b: int)
+    requires a > 0, b > 0, y % (a * b) == 0,
+    ensures y % a == 0,
+{
+    let q = y / (a * b);
+    assert(a * b > 0) by (nonlinear_arith) requires a > 0, b > 0;
+    vstd::arithmetic::div_mod::lemma_fundamental_div_mod(y, a * b);
+    assert(y == (q * b) * a + 0) by (nonlinear_arith) requires y == (a * b) * q + y % (a * b), y % (a * b) == 0;
+    vstd::arithmetic::div_mod::lemma_fundamental_div_mod_converse(y, a, q * b, 0);
+}
+/// how the three leap-year quotients change from y-1 to y
+#[verifier::spinoff_prover]
+pub proof fn lemma_leap_step(y: int)
+    ensures y / 4 - (y - 1) / 4 == (if y % 4 == 0 { 1int } else { 0int }),
+            y / 100 - (y - 1) / 100 == (if y % 100 == 0 { 1int } else { 0int }),
+            y / 400 - (y - 1) / 400 == (if y % 400 == 0 { 1int } else { 0int }),
+            y % 400 == 0 ==> y % 100 == 0, y % 100 == 0 ==> y % 4 == 0,
+{
+    lemma_div_step(y, 4); lemma_div_step(y, 100); lemma_div_step(y, 400);
+    if y % 400 == 0 { lemma_divides_chain(y, 100, 4); }
+    if y % 100 == 0 { lemma_divides_chain(y, 4, 25); }
+}
+/// rd with the month term replaced by the table
+pub open spec fn rd_lin(y: int, m: int, d: int) -> int {
+    let yy = if m <= 2 { y - 1 } else { y };
+    let mm = if m <= 2 { m + 12 } else { m };
+    365 * yy + yy / 4 - yy / 100 + yy / 400 + moff(mm) + d - 1 - 719468
+}
+#[verifier::spinoff_prover]
+pub proof fn lemma_rd_lin(y: int, m: int, d: int)
+    requires 1 <= m <= 12,
+    ensures rd(y, m, d) == rd_lin(y, m, d),
+{
+    lemma_moff(if m <= 2 { m + 12 } else { m });
+}
+#[verifier::spinoff_prover]
 pub proof fn lemma_rd_succ(y: int, m: int, d: int)
     requires valid_ymd(y, m, d),
     ensures valid_ymd(next_y(y, m, d), next_m(y, m, d), next_d(y, m, d)),
             rd(next_y(y, m, d), next_m(y, m, d), next_d(y, m, d)) == rd(y, m, d) + 1,
 {
-    if d == dim(y, m) {
-        if m == 2 {
-            // Feb -> Mar: uses leap-year rule
-            let a = y - 1;
-            assert(y / 4 - a / 4 == (if y % 4 == 0 { 1int } else { 0int }));
-            assert(y / 100 - a / 100 == (if y % 100 == 0 { 1int } else { 0int }));
-            assert(y / 400 - a / 400 == (if y % 400 == 0 { 1int } else { 0int }));
-        }
-    }
+    lemma_rd_lin(y, m, d);
+    lemma_rd_lin(next_y(y, m, d), next_m(y, m, d), next_d(y, m, d));
+    lemma_leap_step(y);
 }
+#[verifier::spinoff_prover]
 pub proof fn lemma_rd_pred(y: int, m: int, d: int)
     requires valid_ymd(y, m, d),
     ensures valid_ymd(prev_y(y, m, d), prev_m(y, m, d), prev_d(y, m, d)),
             rd(prev_y(y, m, d), prev_m(y, m, d), prev_d(y, m, d)) == rd(y, m, d) - 1,
 {
-    if d == 1 {
-        if m == 3 {
-            let a = y - 1;
-            assert(y / 4 - a / 4 == (if y % 4 == 0 { 1int } else { 0int }));
-            assert(y / 100 - a / 100 == (if y % 100 == 0 { 1int } else { 0int }));
-            assert(y / 400 - a / 400 == (if y % 400 == 0 { 1int } else { 0int }));
-        }
-    }
+    lemma_rd_lin(y, m, d);
+    lemma_rd_lin(prev_y(y, m, d), prev_m(y, m, d), prev_d(y, m, d));
+    lemma_leap_step(y);
 }
 // day-of-year (1-based) and its relation to rd
 pub open spec fn days_before_month(y: int, m: int) -> int
@@ -97,32 +156,46 @@ pub open spec fn days_before_month(y: int, m: int) -> int
     if m <= 1 { 0 } else { days_before_month(y, m - 1) + dim(y, m - 1) }
 }
 pub open spec fn doy(y: int, m: int, d: int) -> int { days_before_month(y, m) + d }
+pub open spec fn dbm_tab(y: int, m: int) -> int {
+    let l = if is_leap(y) { 1int } else { 0int };
+    if m == 1 { 0 } else if m == 2 { 31 } else if m == 3 { 59 + l } else if m == 4 { 90 + l } else if m == 5 { 120 + l } else if m == 6 { 151 + l }
+    else if m == 7 { 181 + l } else if m == 8 { 212 + l } else if m == 9 { 243 + l } else if m == 10 { 273 + l } else if m == 11 { 304 + l } else { 334 + l }
+}
+#[verifier::spinoff_prover]
+pub proof fn lemma_dbm(y: int, m: int)
+    requires 1 <= m <= 12,
+    ensures days_before_month(y, m) == dbm_tab(y, m),
+    decreases m
+{
+    if m > 1 { lemma_dbm(y, m - 1); }
+}
+#[verifier::spinoff_prover]
 pub proof fn lemma_doy_rd(y: int, m: int, d: int)
     requires 1 <= m <= 12,
     ensures rd(y, m, d) == rd(y, 1, 1) + doy(y, m, d) - 1,
 {
-    reveal_with_fuel(days_before_month, 13);
-    let a = y - 1;
-    assert(y / 4 - a / 4 == (if y % 4 == 0 { 1int } else { 0int }));
-    assert(y / 100 - a / 100 == (if y % 100 == 0 { 1int } else { 0int }));
-    assert(y / 400 - a / 400 == (if y % 400 == 0 { 1int } else { 0int }));
+    lemma_dbm(y, m);
+    lemma_rd_lin(y, m, d);
+    lemma_rd_lin(y, 1, 1);
+    lemma_leap_step(y);
 }
+#[verifier::spinoff_prover]
 pub proof fn lemma_rd_year(y: int)
     ensures rd(y + 1, 1, 1) == rd(y, 1, 1) + diy(y),
 {
-    let a = y - 1;
-    assert(y / 4 - a / 4 == (if y % 4 == 0 { 1int } else { 0int }));
-    assert(y / 100 - a / 100 == (if y % 100 == 0 { 1int } else { 0int }));
-    assert(y / 400 - a / 400 == (if y % 400 == 0 { 1int } else { 0int }));
+    lemma_rd_lin(y, 1, 1); lemma_rd_lin(y + 1, 1, 1);
+    lemma_leap_step(y);
 }
 // rd is strictly monotone in (y,m,d) lexicographic order on valid dates => injective.
+#[verifier::spinoff_prover]
 pub proof fn lemma_rd_month_mono(y: int, m1: int, d1: int, m2: int, d2: int)
     requires valid_ymd(y, m1, d1), valid_ymd(y, m2, d2), m1 < m2,
     ensures rd(y, m1, d1) < rd(y, m2, d2),
 {
     lemma_doy_rd(y, m1, d1); lemma_doy_rd(y, m2, d2);
-    reveal_with_fuel(days_before_month, 13);
+    lemma_dbm(y, m1); lemma_dbm(y, m2);
 }
+#[verifier::spinoff_prover]
 pub proof fn lemma_rd_year_mono(y1: int, y2: int)
     requires y1 <= y2,
     ensures rd(y2, 1, 1) - rd(y1, 1, 1) >= 365 * (y2 - y1),
@@ -130,6 +203,7 @@ pub proof fn lemma_rd_year_mono(y1: int, y2: int)
 {
     if y1 < y2 { lemma_rd_year_mono(y1, y2 - 1); lemma_rd_year(y2 - 1); }
 }
+#[verifier::spinoff_prover]
 pub proof fn lemma_rd_mono(y1: int, m1: int, d1: int, y2: int, m2: int, d2: int)
     requires valid_ymd(y1, m1, d1), valid_ymd(y2, m2, d2),
              y1 < y2 || (y1 == y2 && (m1 < m2 || (m1 == m2 && d1 < d2))),
@@ -138,11 +212,12 @@ pub proof fn lemma_rd_mono(y1: int, m1: int, d1: int, y2: int, m2: int, d2: int)
     if y1 < y2 {
         lemma_doy_rd(y1, m1, d1); lemma_doy_rd(y2, m2, d2);
         lemma_rd_year_mono(y1 + 1, y2); lemma_rd_year(y1);
-        reveal_with_fuel(days_before_month, 13);
+        lemma_dbm(y1, m1); lemma_dbm(y2, m2);
     } else if m1 < m2 {
         lemma_rd_month_mono(y1, m1, d1, m2, d2);
     }
 }
+#[verifier::spinoff_prover]
 pub proof fn lemma_rd_inj(y1: int, m1: int, d1: int, y2: int, m2: int, d2: int)
     requires valid_ymd(y1, m1, d1), valid_ymd(y2, m2, d2), rd(y1, m1, d1) == rd(y2, m2, d2),
     ensures y1 == y2 && m1 == m2 && d1 == d2,
@@ -152,6 +227,7 @@ pub proof fn lemma_rd_inj(y1: int, m1: int, d1: int, y2: int, m2: int, d2: int)
 }
 // ISO weekday 1=Monday..7=Sunday of day number e; day 0 (1970-01-01) is a Thursday (4), cyclic successor.
 pub open spec fn wd(e: int) -> int { (e + 3) % 7 + 1 }
+#[verifier::spinoff_prover]
 pub proof fn lemma_wd()
     ensures wd(0) == 4, forall|e: int| #[trigger] wd(e + 1) == (if wd(e) == 7 { 1int } else { wd(e) + 1 }),
 {}
@@ -184,11 +260,13 @@ impl ITime {
 }
 pub open spec fn nth_first_day(y: int, m: int, w: int) -> int { 1 + (w - wd(rd(y, m, 1))) % 7 }
 pub open spec fn nth_last_day(y: int, m: int, w: int) -> int { dim(y, m) - (wd(rd(y, m, dim(y, m))) - w) % 7 }
+#[verifier::spinoff_prover]
 pub proof fn lemma_wd_arith(e: int, w: int, k: int)
     requires 1 <= w <= 7,
     ensures wd(e + (w - wd(e)) % 7 + 7 * k) == w, wd(e - (wd(e) - w) % 7 - 7 * k) == w,
             0 <= (w - wd(e)) % 7 <= 6, 0 <= (wd(e) - w) % 7 <= 6,
 {}
+#[verifier::spinoff_prover]
 pub proof fn lemma_nth_day(y: int, m: int, w: int, k: int)
     requires 1 <= m <= 12, 1 <= w <= 7,
     ensures 1 <= nth_first_day(y, m, w) <= 7, wd(rd(y, m, nth_first_day(y, m, w) + 7 * k)) == w,
@@ -201,6 +279,7 @@ pub proof fn lemma_nth_day(y: int, m: int, w: int, k: int)
     assert(rd(y, m, nth_first_day(y, m, w) + 7 * k) == e1 + (w - wd(e1)) % 7 + 7 * k);
     assert(rd(y, m, nth_last_day(y, m, w) - 7 * k) == e2 - (wd(e2) - w) % 7 - 7 * k);
 }
+#[verifier::spinoff_prover]
 pub proof fn lemma_rd_bounds(y: int, m: int, d: int)
     requires in_range_ymd(y, m, d),
     ensures -4371587 <= rd(y, m, d) <= 2932896,
@@ -211,15 +290,17 @@ pub proof fn lemma_rd_bounds(y: int, m: int, d: int)
     if !(y == -9999 && m == 1 && d == 1) { lemma_rd_mono(-9999, 1, 1, y, m, d); }
     if !(y == 9999 && m == 12 && d == 31) { lemma_rd_mono(y, m, d, 9999, 12, 31); }
 }
+#[verifier::spinoff_prover]
 pub proof fn lemma_year_of_rd(y: int, m: int, d: int)
     requires valid_ymd(y, m, d),
     ensures rd(y, 1, 1) <= rd(y, m, d) < rd(y + 1, 1, 1),
 {
     lemma_doy_rd(y, m, d); lemma_rd_year(y);
-    reveal_with_fuel(days_before_month, 13);
+    lemma_dbm(y, m);
 }
 
 #[verifier::rlimit(200)]
+#[verifier::spinoff_prover]
 pub proof fn lemma_mulshift(k: u64)
     requires k <= 36524,
     ensures ({ let n = 4 * k + 3; (2939745 * n) / 4294967296 == n / 1461 }),
@@ -228,6 +309,7 @@ pub proof fn lemma_mulshift(k: u64)
     assert(k <= 36524 ==> ({ let n = (4 * k + 3) as u64; (2939745 * n) / 4294967296 == n / 1461 })) by (bit_vector);
     assert(k <= 36524 ==> ({ let n = (4 * k + 3) as u64; ((2939745 * n) % 4294967296) / 2939745 / 4 == (n % 1461) / 4 })) by (bit_vector);
 }
+#[verifier::spinoff_prover]
 pub proof fn lemma_month(ny: u32)
     requires ny < 366,
     ensures ({
@@ -249,6 +331,7 @@ pub proof fn lemma_month(ny: u32)
     })) by (bit_vector);
 }
 // q = (4n+3)/P, r = ((4n+3)%P)/4 with P = 4p+1  ==> n == p*q + q/4 + r, and (r == p ==> q%4 == 3)
+#[verifier::spinoff_prover]
 pub proof fn lemma_cycle(n: int, p: int)
     requires n >= 0, p > 0,
     ensures ({
@@ -275,6 +358,53 @@ pub proof fn lemma_cycle(n: int, p: int)
     assert(b + t == 3);
 }
 
+/// the arithmetic heart of Neri-Schneider's to_date, over plain integers
+#[verifier::spinoff_prover]
+pub proof fn lemma_ns_final(e: int, c: int, z: int, ny: int, mm: int, dd: int)
+    requires
+        -4371587 <= e <= 2932896,
+        228 <= c <= 428, 0 <= z <= 99, 0 <= ny <= 365,
+        e + 12699422 == 36524 * c + c / 4 + (365 * z + z / 4 + ny),
+        3 <= mm <= 14, 0 <= dd <= 30,
+        ny == moff(mm) + dd,
+        mm == 14 ==> dd <= 28, (mm == 4 || mm == 6 || mm == 9 || mm == 11) ==> dd <= 29,
+        (ny >= 306) <==> (mm >= 13),
+        mm == 14 && dd == 28 ==> ny == 365,
+        // ny == 365 only in the last year of a 4-year cycle, and the 4-year cycle's 1461st day only in the last of a 400-year cycle
+        ny == 365 ==> z % 4 == 3,
+        (365 * z + z / 4 + ny) == 36524 ==> c % 4 == 3,
+    ensures ({
+        let yy = 100 * c + z - 32800;
+        let j = if ny >= 306 { 1int } else { 0int };
+        let year = yy + j;
+        let month = if ny >= 306 { mm - 12 } else { mm };
+        let day = dd + 1;
+        -9999 <= year <= 9999 && valid_ymd(year, month, day) && rd(year, month, day) == e
+    }),
+{
+    let yy = 100 * c + z - 32800;
+    let j = if ny >= 306 { 1int } else { 0int };
+    let year = yy + j;
+    let month = if ny >= 306 { mm - 12 } else { mm };
+    let day = dd + 1;
+    let big = 100 * c + z;
+    assert(big / 4 == 25 * c + z / 4);
+    assert(big / 100 == c);
+    assert(big / 400 == c / 4);
+    assert(yy / 4 == big / 4 - 8200);
+    assert(yy / 100 == big / 100 - 328);
+    assert(yy / 400 == big / 400 - 82);
+    lemma_rd_lin(year, month, day);
+    // leap status of the March-based year yy+1 decides whether Feb 29 (mm == 14, dd == 28) exists
+    if mm == 14 && dd == 28 {
+        let y1 = yy + 1;
+        assert(z % 4 == 3);
+        assert(y1 % 4 == 0);
+        if z == 99 { assert((365 * z + z / 4 + ny) == 36524); assert(c % 4 == 3); assert(y1 % 400 == 0); }
+        else { assert(y1 % 100 != 0); }
+    }
+}
+
 // ---- opaque model of the abbreviation storage (ABBREV: AsRef<str>) ----
 #[verifier::external_body]
 #[derive(Clone, Copy, Debug)]
@@ -284,6 +414,13 @@ impl Abbrev {
     #[verifier::external_body]
     pub fn as_ref(&self) -> (r: &str) ensures r@ == self.text() { unimplemented!() }
 }
+
+// Everything hand-written for this unit lives in its own module: Verus prunes the SMT context per module, so the
+// (solver-sensitive) calendar lemmas of the imported itime unit keep exactly the context they have there.
+pub use px::*;
+pub mod px {
+use super::*;
+use vstd::prelude::*;
 // ---- include lib/dtorder.vrs ----
 // Order of civil datetimes (IDateTime) and its embedding into the integers.  Spec-only: no code from jiff.
 // `cmp_spec` is the lexicographic order generated for the derived PartialOrd (extractor rule R10); the lemmas
@@ -299,6 +436,7 @@ pub open spec fn key(dt: IDateTime) -> int { dt.date.rd() * 86_400_000_000_000 +
 pub open spec fn dt_le(a: IDateTime, b: IDateTime) -> bool { a.cmp_spec(b) <= 0 }
 pub open spec fn dt_lt(a: IDateTime, b: IDateTime) -> bool { a.cmp_spec(b) < 0 }
 
+#[verifier::spinoff_prover]
 pub proof fn lemma_date_order(a: IDate, b: IDate)
     requires a.wf(), b.wf(),
     ensures (a.cmp_spec(b) < 0) == (a.rd() < b.rd()), (a.cmp_spec(b) == 0) == (a.rd() == b.rd()),
@@ -309,12 +447,14 @@ pub proof fn lemma_date_order(a: IDate, b: IDate)
     if y1 < y2 || (y1 == y2 && (m1 < m2 || (m1 == m2 && d1 < d2))) { lemma_rd_mono(y1, m1, d1, y2, m2, d2); }
     else if y2 < y1 || (y1 == y2 && (m2 < m1 || (m1 == m2 && d2 < d1))) { lemma_rd_mono(y2, m2, d2, y1, m1, d1); }
 }
+#[verifier::spinoff_prover]
 pub proof fn lemma_time_order(a: ITime, b: ITime)
     requires a.wf(), b.wf(),
     ensures (a.cmp_spec(b) < 0) == (a.ns_of_day() < b.ns_of_day()), (a.cmp_spec(b) == 0) == (a.ns_of_day() == b.ns_of_day()),
             (a.cmp_spec(b) == 0) == (a == b), -1 <= a.cmp_spec(b) <= 1,
             0 <= a.ns_of_day() < 86_400_000_000_000,
 {}
+#[verifier::spinoff_prover]
 pub proof fn lemma_dt_order(a: IDateTime, b: IDateTime)
     requires dt_wf(a), dt_wf(b),
     ensures dt_lt(a, b) == (key(a) < key(b)), dt_le(a, b) == (key(a) <= key(b)),
@@ -325,6 +465,7 @@ pub proof fn lemma_dt_order(a: IDateTime, b: IDateTime)
     lemma_time_order(a.time, b.time);
     lemma_time_order(b.time, a.time);
 }
+#[verifier::spinoff_prover]
 pub proof fn lemma_key_loc(a: IDateTime)
     requires dt_wf(a),
     ensures key(a) == loc(a) * 1_000_000_000 + a.time.subsec_nanosecond,
@@ -343,6 +484,22 @@ pub assume_specification[ i32::saturating_neg ](x: i32) -> (r: i32)
 // ---- DST interval of one year (C03): exact specs of DstInfo::in_dst / ordered over the derived order ----
 pub open spec fn in_dst_spec(s: IDateTime, e: IDateTime, dt: IDateTime) -> bool {
     if dt_le(s, e) { dt_le(s, dt) && dt_lt(dt, e) } else { !(dt_le(e, dt) && dt_lt(dt, s)) }
+}
+pub open spec fn ordered_spec(s: IDateTime, e: IDateTime) -> (IDateTime, IDateTime) {
+    if dt_le(s, e) { (s, e) } else { (e, s) }
+}
+/// C03 "the answer changes exactly at the transition instant": DST holds from `s` on, standard time from `e` on,
+/// and between two datetimes with neither s nor e in (a, b] the answer is the same
+#[verifier::spinoff_prover]
+pub proof fn lemma_in_dst_changes_exactly_at_transitions(s: IDateTime, e: IDateTime, a: IDateTime, b: IDateTime)
+    requires dt_wf(s), dt_wf(e), dt_wf(a), dt_wf(b),
+    ensures s != e ==> in_dst_spec(s, e, s), !in_dst_spec(s, e, e),
+            dt_le(a, b) && !(dt_lt(a, s) && dt_le(s, b)) && !(dt_lt(a, e) && dt_le(e, b)) ==> in_dst_spec(s, e, a) == in_dst_spec(s, e, b),
+{
+    lemma_dt_order(s, e); lemma_dt_order(e, s); lemma_dt_order(s, s); lemma_dt_order(e, e);
+    lemma_dt_order(s, a); lemma_dt_order(a, s); lemma_dt_order(s, b); lemma_dt_order(b, s);
+    lemma_dt_order(e, a); lemma_dt_order(a, e); lemma_dt_order(e, b); lemma_dt_order(b, e);
+    lemma_dt_order(a, b);
 }
 // ---- type invariants (established by the parser; preconditions here) ----
 impl PosixOffset { pub open spec fn wf(&self) -> bool { -93599 <= self.second <= 93599 } }
@@ -373,11 +530,13 @@ impl PosixDay {
     }
 }
 /// two days of one month less than a week apart with the same weekday are the same day
+#[verifier::spinoff_prover]
 pub proof fn lemma_wd_unique(y: int, m: int, d1: int, d2: int)
     requires wd(rd(y, m, d1)) == wd(rd(y, m, d2)), -7 < d1 - d2 < 7,
     ensures d1 == d2,
 {}
 /// the day found by nth_weekday_of_month is the closed form used in PosixDay::spec_rd
+#[verifier::spinoff_prover]
 pub proof fn lemma_mwd(y: int, m: int, w: int, nth: int, d: int)
     requires 1 <= m <= 12, 1 <= w <= 7, wd(rd(y, m, d)) == w,
              nth > 0 ==> (nth - 1) * 7 < d <= nth * 7,
@@ -401,6 +560,7 @@ pub open spec fn year_lo(y: int) -> int { rd(y, 1, 1) * 86400 }
 pub open spec fn year_hi(y: int) -> int { rd(y + 1, 1, 1) * 86400 }
 /// the civil datetime with a given nanosecond key (unique: lemma_dt_of_key)
 pub open spec fn dt_of_key(k: int) -> IDateTime { choose|r: IDateTime| dt_wf(r) && key(r) == k }
+#[verifier::spinoff_prover]
 pub proof fn lemma_dt_of_key(r: IDateTime)
     requires dt_wf(r),
     ensures dt_of_key(key(r)) == r,
@@ -408,6 +568,40 @@ pub proof fn lemma_dt_of_key(r: IDateTime)
     let c = dt_of_key(key(r));
     assert(dt_wf(c) && key(c) == key(r));
     lemma_dt_order(c, r);
+}
+/// rd is onto the supported day numbers (with lemma_rd_inj: a bijection from the dates in range)
+#[verifier::spinoff_prover]
+pub proof fn lemma_date_of_rd(n: int) -> (d: IDate)
+    requires -4371587 <= n <= 2932896,
+    ensures d.wf(), d.rd() == n,
+    decreases n + 4371587,
+{
+    if n == -4371587 {
+        lemma_rd_epoch();
+        IDate { year: (-9999) as i16, month: 1, day: 1 }
+    } else {
+        let p = lemma_date_of_rd(n - 1);
+        let (y, m, dd) = (p.year as int, p.month as int, p.day as int);
+        lemma_rd_succ(y, m, dd);
+        lemma_rd_bounds(y, m, dd);
+        IDate { year: next_y(y, m, dd) as i16, month: next_m(y, m, dd) as i8, day: next_d(y, m, dd) as i8 }
+    }
+}
+/// dt_of_key is total on the keys of the supported range
+#[verifier::spinoff_prover]
+pub proof fn lemma_dt_of_key_total(k: int)
+    requires -4371587 * 86_400_000_000_000 <= k < 2932897 * 86_400_000_000_000,
+    ensures dt_wf(dt_of_key(k)), key(dt_of_key(k)) == k,
+{
+    let n = k / 86_400_000_000_000;
+    let ns = k % 86_400_000_000_000;
+    let d = lemma_date_of_rd(n);
+    let t = ITime {
+        hour: (ns / 3_600_000_000_000) as i8, minute: ((ns / 60_000_000_000) % 60) as i8,
+        second: ((ns / 1_000_000_000) % 60) as i8, subsec_nanosecond: (ns % 1_000_000_000) as i32,
+    };
+    let w = IDateTime { date: d, time: t };
+    assert(dt_wf(w) && key(w) == k);
 }
 impl PosixDayTime {
     pub open spec fn wf(&self) -> bool { self.date.wf() && self.time.wf() }
@@ -425,6 +619,7 @@ impl PosixDayTime {
     }
     pub open spec fn spec_datetime(&self, y: i16, off: int) -> IDateTime { dt_of_key(self.spec_key(y as int, off)) }
 }
+#[verifier::spinoff_prover]
 pub proof fn lemma_year_ends(y: i16)
     requires -9999 <= y <= 9999,
     ensures dt_wf(year_first(y)), dt_wf(year_last(y)),
@@ -440,6 +635,7 @@ pub proof fn lemma_year_ends(y: i16)
     lemma_dt_of_key(year_last(y));
 }
 /// a date of an earlier/later/the same year lies before/after/inside that year
+#[verifier::spinoff_prover]
 pub proof fn lemma_date_vs_year(d: IDate, y: int)
     requires d.wf(),
     ensures d.year < y ==> d.rd() < rd(y, 1, 1),
@@ -450,6 +646,21 @@ pub proof fn lemma_date_vs_year(d: IDate, y: int)
     lemma_year_of_rd(dy, d.month as int, d.day as int);
     if dy < y { lemma_rd_year_mono(dy + 1, y); }
     if dy > y { lemma_rd_year_mono(y + 1, dy); }
+}
+/// spec_datetime is well defined: a civil datetime of year y with the prescribed key
+#[verifier::spinoff_prover]
+pub proof fn lemma_spec_datetime(p: PosixDayTime, y: i16, off: int)
+    requires -9999 <= y <= 9999,
+    ensures dt_wf(p.spec_datetime(y, off)), p.spec_datetime(y, off).date.year == y,
+            key(p.spec_datetime(y, off)) == p.spec_key(y as int, off),
+{
+    lemma_year_ends(y);
+    let k = p.spec_key(y as int, off);
+    assert(year_lo(y as int) * 1_000_000_000 <= k < year_hi(y as int) * 1_000_000_000);
+    lemma_dt_of_key_total(k);
+    let r = dt_of_key(k);
+    lemma_key_loc(r);
+    lemma_date_vs_year(r.date, y as int);
 }
 // ---- the zone (C03) ----
 impl PosixDst {
@@ -491,6 +702,7 @@ pub open spec fn sat_add_post(s: IDateTime, seconds: int, r: IDateTime) -> bool 
     && (!(-4371587 <= q <= 2932896) ==> r == (if seconds < 0 { IDateTime::MIN } else { IDateTime::MAX }))
 }
 /// comparing against a saturated sum is comparing against the exact sum, except at IDateTime::MAX
+#[verifier::spinoff_prover]
 pub proof fn lemma_sat_shift(s: IDateTime, seconds: int, r: IDateTime, dt: IDateTime)
     requires dt_wf(s), dt_wf(dt), sat_add_post(s, seconds, r), dt != IDateTime::MAX,
     ensures dt_wf(r), dt_le(r, dt) == (shift(s, seconds) <= key(dt)), dt_lt(dt, r) == (key(dt) < shift(s, seconds)),
@@ -541,6 +753,7 @@ impl PosixTimeZone {
     }
 }
 // ---- neighbouring transitions (C14) ----
+#[verifier::spinoff_prover]
 pub proof fn lemma_year_lt(a: IDateTime, b: IDateTime)
     ensures a.date.year < b.date.year ==> dt_lt(a, b) && !dt_lt(b, a),
 {}
@@ -583,9 +796,79 @@ impl PosixTimeZone {
         }
     }
 }
-pub open spec fn ordered_spec(s: IDateTime, e: IDateTime) -> (IDateTime, IDateTime) {
-    if dt_le(s, e) { (s, e) } else { (e, s) }
+/// ordered_spec picks the minimum and the maximum
+#[verifier::spinoff_prover]
+pub proof fn lemma_ordered(a: IDateTime, b: IDateTime)
+    requires dt_wf(a), dt_wf(b),
+    ensures ({
+        let o = ordered_spec(a, b);
+        dt_le(o.0, a) && dt_le(o.0, b) && dt_le(a, o.1) && dt_le(b, o.1) && dt_le(o.0, o.1)
+        && ((o.0 == a && o.1 == b) || (o.0 == b && o.1 == a))
+    }),
+{
+    lemma_dt_order(a, b); lemma_dt_order(b, a); lemma_dt_order(a, a); lemma_dt_order(b, b);
 }
+/// C14 "nearest, omits none": no rule-generated transition of any year lies strictly between the candidate and dt,
+/// and when there is no candidate no rule-generated transition lies before dt at all
+#[verifier::spinoff_prover]
+pub proof fn lemma_prev_nearest(tz: PosixTimeZone, dt: IDateTime, y2: i16)
+    requires tz.dst is Some, dt_wf(dt), -9999 <= y2 <= 9999,
+    ensures ({
+        let t1 = tz.utc_start(y2); let t2 = tz.utc_end(y2);
+        match tz.prev_cand(dt) {
+            Some((c, cy)) => (dt_lt(t1, dt) ==> dt_le(t1, c)) && (dt_lt(t2, dt) ==> dt_le(t2, c)),
+            None => !dt_lt(t1, dt) && !dt_lt(t2, dt),
+        }
+    }),
+{
+    hide(rd); hide(valid_ymd); hide(IDate::cmp_spec); hide(ITime::cmp_spec); hide(key); hide(dt_of_key);
+    let y = dt.date.year;
+    let rs = tz.dst->0.rule.start; let re = tz.dst->0.rule.end;
+    let so = tz.std_offset.second as int; let eo = tz.dst->0.offset.second as int;
+    let t1 = tz.utc_start(y2); let t2 = tz.utc_end(y2);
+    lemma_spec_datetime(rs, y2, so); lemma_spec_datetime(re, y2, eo);
+    lemma_spec_datetime(rs, y, so); lemma_spec_datetime(re, y, eo);
+    lemma_ordered(t1, t2);
+    lemma_ordered(tz.utc_start(y), tz.utc_end(y));
+    if y2 > y { lemma_year_lt(dt, t1); lemma_year_lt(dt, t2); }
+    else if y2 < y {
+        let ym = (y - 1) as i16;
+        lemma_spec_datetime(rs, ym, so); lemma_spec_datetime(re, ym, eo);
+        lemma_ordered(tz.utc_start(ym), tz.utc_end(ym));
+        let c = (tz.prev_cand(dt)->0).0;
+        lemma_year_lt(t1, c); lemma_year_lt(t2, c);
+    }
+}
+#[verifier::spinoff_prover]
+pub proof fn lemma_next_nearest(tz: PosixTimeZone, dt: IDateTime, y2: i16)
+    requires tz.dst is Some, dt_wf(dt), -9999 <= y2 <= 9999,
+    ensures ({
+        let t1 = tz.utc_start(y2); let t2 = tz.utc_end(y2);
+        match tz.next_cand(dt) {
+            Some((c, cy)) => (dt_lt(dt, t1) ==> dt_le(c, t1)) && (dt_lt(dt, t2) ==> dt_le(c, t2)),
+            None => !dt_lt(dt, t1) && !dt_lt(dt, t2),
+        }
+    }),
+{
+    hide(rd); hide(valid_ymd); hide(IDate::cmp_spec); hide(ITime::cmp_spec); hide(key); hide(dt_of_key);
+    let y = dt.date.year;
+    let rs = tz.dst->0.rule.start; let re = tz.dst->0.rule.end;
+    let so = tz.std_offset.second as int; let eo = tz.dst->0.offset.second as int;
+    let t1 = tz.utc_start(y2); let t2 = tz.utc_end(y2);
+    lemma_spec_datetime(rs, y2, so); lemma_spec_datetime(re, y2, eo);
+    lemma_spec_datetime(rs, y, so); lemma_spec_datetime(re, y, eo);
+    lemma_ordered(t1, t2);
+    lemma_ordered(tz.utc_start(y), tz.utc_end(y));
+    if y2 < y { lemma_year_lt(t1, dt); lemma_year_lt(t2, dt); }
+    else if y2 > y {
+        let yp = (y + 1) as i16;
+        lemma_spec_datetime(rs, yp, so); lemma_spec_datetime(re, yp, eo);
+        lemma_ordered(tz.utc_start(yp), tz.utc_end(yp));
+        let c = (tz.next_cand(dt)->0).0;
+        lemma_year_lt(c, t1); lemma_year_lt(c, t2);
+    }
+}
+} // mod px
 
 // ==== extracted from /repo ====
 #[derive(Clone, Copy, Debug, Eq, PartialEq, Structural)]
@@ -632,6 +915,7 @@ pub const MAX: ITimestamp =
     }
 
 // @fn ITimestamp::to_datetime @src src/shared/util/itime.rs:50
+#[verifier::spinoff_prover]
 
     pub const fn to_datetime(&self, offset: IOffset) -> (r: IDateTime)
     requires
@@ -730,6 +1014,7 @@ pub const MIN: IDateTime = IDateTime { date: IDate::MIN, time: ITime::MIN };
 pub const MAX: IDateTime = IDateTime { date: IDate::MAX, time: ITime::MAX };
 
 // @fn IDateTime::to_timestamp @src src/shared/util/itime.rs:97
+#[verifier::spinoff_prover]
 
     pub fn to_timestamp(&self, offset: IOffset) -> (r: ITimestamp)
     requires
@@ -776,6 +1061,7 @@ pub const MAX: IDateTime = IDateTime { date: IDate::MAX, time: ITime::MAX };
     }
 
 // @fn IDateTime::saturating_add_seconds @src src/shared/util/itime.rs:130
+#[verifier::spinoff_prover]
 
     pub fn saturating_add_seconds(&self, seconds: i32) -> (r: IDateTime)
     requires
@@ -793,6 +1079,7 @@ pub const MAX: IDateTime = IDateTime { date: IDate::MAX, time: ITime::MAX };
     }
 
 // @fn IDateTime::checked_add_seconds @src src/shared/util/itime.rs:141
+#[verifier::spinoff_prover]
 
     pub fn checked_add_seconds(
         &self,
@@ -850,6 +1137,7 @@ pub const MIN: IEpochDay = IEpochDay { epoch_day: -4371587 };
 pub const MAX: IEpochDay = IEpochDay { epoch_day: 2932896 };
 
 // @fn IEpochDay::to_date @src src/shared/util/itime.rs:173
+#[verifier::spinoff_prover]
 
      
     pub const fn to_date(&self) -> (r: IDate)
@@ -880,6 +1168,7 @@ pub const MAX: IEpochDay = IEpochDay { epoch_day: 2932896 };
             assert(N as int == 36524 * C + C / 4 + N_C);
             assert(N_C <= 36524);
             assert(228 <= C <= 428);
+            assert(N_C == 36524 ==> C % 4 == 3);
         }
 
 
@@ -895,6 +1184,7 @@ pub const MAX: IEpochDay = IEpochDay { epoch_day: 2932896 };
             assert(N_C as int == 365 * Z + Z / 4 + N_Y);
             assert(Z <= 99);
             assert(N_Y <= 365);
+            assert(N_Y == 365 ==> Z % 4 == 3);
         }
 
         let Y = 100 * C + Z;
@@ -902,7 +1192,7 @@ pub const MAX: IEpochDay = IEpochDay { epoch_day: 2932896 };
         let N_3 = 2141 * N_Y + 197913;
         let M = N_3 / 65536;
         let D = (N_3 % 65536) / 2141;
-        proof { lemma_month(N_Y); }
+        proof { lemma_month(N_Y); lemma_moff(M as int); }
 
 
         let J = N_Y >= 306;
@@ -910,20 +1200,14 @@ pub const MAX: IEpochDay = IEpochDay { epoch_day: 2932896 };
         let month = (if J { M - 12 } else { M }) as i8;
         let day = (D + 1) as i8;
         proof {
+            lemma_ns_final(self.epoch_day as int, C as int, Z as int, N_Y as int, M as int, D as int);
             let yy: int = Y as int - 32800;
             let yr: int = yy + if J { 1int } else { 0int };
-            assert(-10000 <= yy <= 9999);
             let w = Y.wrapping_sub(L).wrapping_add(J as u32);
             assert(yr >= 0 ==> w as int == yr);
             assert(yr < 0 ==> w as int == yr + 4294967296);
             assert(w < 0x8000 ==> (w as i16) as int == w as int) by (bit_vector);
             assert(w >= 0xFFFF8000u32 ==> (w as i16) as int == w as int - 4294967296) by (bit_vector);
-            assert(Y as int / 4 == 25 * C + Z / 4);
-            assert(Y as int / 100 == C as int);
-            assert(Y as int / 400 == C as int / 4);
-            assert(yy / 4 == Y as int / 4 - 8200);
-            assert(yy / 100 == Y as int / 100 - 328);
-            assert(yy / 400 == Y as int / 400 - 82);
             let mo: u32 = if J { (M - 12) as u32 } else { M };
             assert(mo <= 12 ==> (mo as i8) as int == mo as int) by (bit_vector);
             let dd = (D + 1) as u32;
@@ -1026,6 +1310,7 @@ pub const MAX: IDate = IDate { year: 9999, month: 12, day: 31 };
     }
 
 // @fn IDate::from_day_of_year @src src/shared/util/itime.rs:281
+#[verifier::spinoff_prover]
 
     pub fn from_day_of_year(
         year: i16,
@@ -1099,6 +1384,7 @@ pub const MAX: IDate = IDate { year: 9999, month: 12, day: 31 };
     }
 
 // @fn IDate::to_epoch_day @src src/shared/util/itime.rs:351
+#[verifier::spinoff_prover]
 
      
     pub const fn to_epoch_day(&self) -> (r: IEpochDay)
@@ -1167,6 +1453,7 @@ pub const MAX: IDate = IDate { year: 9999, month: 12, day: 31 };
     }
 
 // @fn IDate::nth_weekday_of_month @src src/shared/util/itime.rs:389
+#[verifier::spinoff_prover]
 
     pub fn nth_weekday_of_month(
         &self,
@@ -1291,6 +1578,7 @@ pub const MAX: IDate = IDate { year: 9999, month: 12, day: 31 };
     }
 
 // @fn IDate::checked_add_days @src src/shared/util/itime.rs:506
+#[verifier::spinoff_prover]
 
     pub fn checked_add_days(
         &self,
@@ -1765,6 +2053,7 @@ pub struct PosixOffset {
 
 impl PosixOffset {
 // @fn PosixOffset::to_ioffset @src src/shared/posix.rs:476
+#[verifier::spinoff_prover]
 pub fn to_ioffset(&self) -> (r: IOffset)
     ensures
         r.second == self.second,
@@ -1775,6 +2064,7 @@ pub fn to_ioffset(&self) -> (r: IOffset)
 
 impl<'a> DstInfo<'a> {
 // @fn DstInfo::in_dst @src src/shared/posix.rs:551
+#[verifier::spinoff_prover]
 pub fn in_dst(&self, utc_dt: IDateTime) -> (r: bool)
     ensures
         r == in_dst_spec(self.start, self.end, utc_dt),
@@ -1789,6 +2079,7 @@ pub fn in_dst(&self, utc_dt: IDateTime) -> (r: bool)
 
 impl<'a> DstInfo<'a> {
 // @fn DstInfo::ordered @src src/shared/posix.rs:560
+#[verifier::spinoff_prover]
 pub fn ordered(&self) -> (r: (IDateTime, IDateTime))
     ensures
         r == ordered_spec(self.start, self.end),
@@ -1803,6 +2094,7 @@ pub fn ordered(&self) -> (r: (IDateTime, IDateTime))
 
 impl<'a> DstInfo<'a> {
 // @fn DstInfo::offset @src src/shared/posix.rs:569
+#[verifier::spinoff_prover]
 pub fn offset(&self) -> (r: &PosixOffset)
     ensures
         *r == self.dst.offset,
@@ -1813,6 +2105,7 @@ pub fn offset(&self) -> (r: &PosixOffset)
 
 impl PosixDay {
 // @fn PosixDay::to_date @src src/shared/posix.rs:385
+#[verifier::spinoff_prover]
 pub fn to_date(&self, year: i16) -> (r: Option<IDate>)
     requires
         self.wf(), -9999 <= year <= 9999,
@@ -1885,6 +2178,7 @@ pub fn to_date(&self, year: i16) -> (r: Option<IDate>)
 
 impl PosixDayTime {
 // @fn PosixDayTime::to_datetime @src src/shared/posix.rs:333
+#[verifier::spinoff_prover]
 pub fn to_datetime(&self, year: i16, offset: IOffset) -> (r: IDateTime)
     requires
         self.wf(), -9999 <= year <= 9999, -93599 <= offset.second <= 93599,
@@ -1942,6 +2236,7 @@ pub fn to_datetime(&self, year: i16, offset: IOffset) -> (r: IDateTime)
 
 impl PosixTimeZone {
 // @fn PosixTimeZone::dst_info_utc @src src/shared/posix.rs:246
+#[verifier::spinoff_prover]
 pub fn dst_info_utc(&self, year: i16) -> (r: Option<DstInfo<'_>>)
     requires
         self.wf(), -9999 <= year <= 9999,
@@ -1964,6 +2259,7 @@ pub fn dst_info_utc(&self, year: i16) -> (r: Option<DstInfo<'_>>)
 
 impl PosixTimeZone {
 // @fn PosixTimeZone::dst_info_wall @src src/shared/posix.rs:263
+#[verifier::spinoff_prover]
 pub fn dst_info_wall(&self, year: i16) -> (r: Option<DstInfo<'_>>)
     requires
         self.wf(), -9999 <= year <= 9999,
@@ -1984,6 +2280,7 @@ pub fn dst_info_wall(&self, year: i16) -> (r: Option<DstInfo<'_>>)
 
 impl PosixTimeZone {
 // @fn PosixTimeZone::to_offset @src src/shared/posix.rs:50
+#[verifier::spinoff_prover]
 pub fn to_offset(&self, timestamp: ITimestamp) -> (r: IOffset)
     requires
         self.wf(), ts_wf(timestamp),
@@ -2007,6 +2304,7 @@ pub fn to_offset(&self, timestamp: ITimestamp) -> (r: IOffset)
 
 impl PosixTimeZone {
 // @fn PosixTimeZone::to_offset_info @src src/shared/posix.rs:69
+#[verifier::spinoff_prover]
 pub fn to_offset_info(
         &self,
         timestamp: ITimestamp,
@@ -2041,6 +2339,7 @@ pub fn to_offset_info(
 
 impl PosixTimeZone {
 // @fn PosixTimeZone::to_ambiguous_kind @src src/shared/posix.rs:102
+#[verifier::spinoff_prover]
 pub fn to_ambiguous_kind(&self, dt: IDateTime) -> (r: IAmbiguousOffset)
     requires
         self.wf(), dt_wf(dt),
@@ -2152,6 +2451,7 @@ pub fn to_ambiguous_kind(&self, dt: IDateTime) -> (r: IAmbiguousOffset)
 
 impl PosixTimeZone {
 // @fn PosixTimeZone::previous_transition @src src/shared/posix.rs:184
+#[verifier::spinoff_prover]
 pub fn previous_transition(
         &self,
         timestamp: ITimestamp,
@@ -2214,6 +2514,7 @@ pub fn previous_transition(
 
 impl PosixTimeZone {
 // @fn PosixTimeZone::next_transition @src src/shared/posix.rs:214
+#[verifier::spinoff_prover]
 pub fn next_transition(
         &self,
         timestamp: ITimestamp,
